@@ -129,13 +129,16 @@ jose_jws_hdr(const json_t *sig)
     json_auto_t *p = NULL;
     json_t *h = NULL;
 
-    p = json_object_get(sig, "protected");
-    if (!p)
+    p = json_incref(json_object_get(sig, "protected"));
+    if (!p) {
         p = json_object();
-    else if (json_is_object(p))
+    } else if (json_is_object(p)) {
+        json_decref(p);
         p = json_deep_copy(p);
-    else if (json_is_string(p))
+    } else if (json_is_string(p)) {
+        json_decref(p);
         p = jose_b64_dec_load(p);
+    }
 
     if (!json_is_object(p))
         return NULL;
